@@ -32,7 +32,44 @@ def _connected(seed_syms, polys):
     return sorted(chosen)
 
 
+class _Timeout(Exception):
+    pass
+
+
+class time_limit:
+    """SIGALRM-based wall-clock limit for pure-python back ends (worker processes are single
+    threaded, so the signal lands in the computation)"""
+
+    def __init__(self, seconds):
+        self.seconds = seconds
+
+    def __enter__(self):
+        import signal
+        self.old = signal.signal(signal.SIGALRM, self._raise)
+        signal.setitimer(signal.ITIMER_REAL, self.seconds)
+
+    def _raise(self, *a):
+        raise _Timeout()
+
+    def __exit__(self, *a):
+        import signal
+        signal.setitimer(signal.ITIMER_REAL, 0)
+        signal.signal(signal.SIGALRM, self.old)
+        return False
+
+
+GROEBNER_BUDGET_S = [25.0]
+
+
 def groebner_prove(eqs, goal, nonzero=(), budget_terms=4000):
+    try:
+        with time_limit(GROEBNER_BUDGET_S[0]):
+            return _groebner_prove(eqs, goal, nonzero)
+    except _Timeout:
+        return False, 'groebner-timeout(%ss)' % GROEBNER_BUDGET_S[0]
+
+
+def _groebner_prove(eqs, goal, nonzero=()):
     """Is goal == 0 a consequence of eqs == 0 (and nonzero != 0)?  -> (bool, how)"""
     goal = sp.expand(S.numden(goal)[0])
     if goal == 0:
